@@ -21,7 +21,9 @@ THEOREMS = {
     "C05": [("QuartzModel.Theorems.MissingWakeup", "Facts.missing_none_wakeup")] + [("QuartzModel.Theorems.C05", "Wakeup." + t) for t in [
         "C05_facts_wf", "C05_invariant", "C05_parked_correct", "C05_never_lost", "C05_token_rereads", "C05_send_never_blocks", "C05_holds",
         "C05_lost_unbuffered", "C05_lost_without_send", "C05_lost_send_before", "C05_lost_without_reread", "C05_blocking_send_deadlocks"]] +
-           [("QuartzModel.Proofs.WakeupLemmas", "Wakeup.inv_step"), ("QuartzModel.Proofs.WakeupLemmas", "Wakeup.inv_run")],
+           [("QuartzModel.Proofs.WakeupLemmas", "Wakeup.inv_step"), ("QuartzModel.Proofs.WakeupLemmas", "Wakeup.inv_run")] +
+           # a fire time beyond the largest representable time does not get ahead of the due jobs (the loop neither spins nor starves them)
+           [("QuartzModel.Theorems.C04", "Sched." + t) for t in ["C04_saturates", "C04_saturated_not_due", "C04_saturated_never_spins"]],
     "C15": [("QuartzModel.Theorems.MissingFaults", "Facts.missing_none_faults")] + [("QuartzModel.Theorems.C15", "Faults." + t) for t in [
         "C15_facts_wf", "C15_facts_api", "C15_facts_dispatch", "C15_backoff_step", "C15_backoff", "C15_holds", "C15_backoff_fails_without_flag",
         "C15_interrupts_postpone_recovery", "C15_api_propagates", "C15_api_nil_only_if_all_ok", "C15_dispatch_after_pop", "C15_one_push_per_pop",
@@ -59,12 +61,22 @@ THEOREMS = {
         "C10_facts", "C10_start_idempotent", "C10_stop_idempotent", "C10_isStarted_latest", "C10_started_at_quiescence",
         "C10_cancel_eq_stop", "C10_restart", "C10_restart_unguarded_fails", "C10_cancel_start_race_unrepaired",
         "C10_wait_sound", "C10_wait_returns_at_zero", "C10_wait_independent", "C10_wait_reusable", "C10_waitgroup_reuse_hazard", "C10_ctx_cancelled_on_stop", "C10_isStarted_latest_code", "C10_restart_code"]] +
-           [("QuartzModel.Proofs.LifecycleLemmas", "Lifecycle.quiet_iff")],
+           [("QuartzModel.Proofs.LifecycleLemmas", "Lifecycle.quiet_iff")] +
+           # the lock discipline: every method's lock operations (regenerated) fit the hierarchy for which deadlock freedom is proved
+           [("QuartzModel.Theorems.C10Locks", "LockOrder." + t) for t in ["good_step", "C10_lock_order_no_deadlock", "C10_lock_order_reachable",
+                                                                         "C10_recursive_rlock_deadlocks", "C10_reverse_order_deadlocks", "blCheck_sound", "C10_mutual_exclusion"]] +
+           [("QuartzModel.Theorems.C10LockFacts", "LockOrder." + t) for t in ["C10_lock_shapes_good", "C10_lock_shapes_cover", "C10_no_lock_deadlock_code"]] +
+           [("QuartzModel.Theorems.MissingMtx", "Facts.missing_none_mtx")],
     "C14": [("QuartzModel.Theorems.C14", "Cron." + t) for t in [
         "C14_sound", "C14_no_miss", "C14_expiry", "C14_terminates", "C14_exact_away_from_transitions", "C14_exact_is_least",
         "C14_chain_increasing", "C14_fixed_zone_is_special_case", "C14_total", "C14_reading_advances", "C14_result_reading"]] +
            [("QuartzModel.Proofs.ZoneLemmas", "Cron.zoneLoop_spec"), ("QuartzModel.Proofs.ZoneLemmas", "Cron.zoneLoop_fuel")] + FACTS[:2],
-    "C03": COMPOSE[:3] + COMPOSE[8:] + SCHEDFACTS + [("QuartzModel.Theorems.C03", "Sched." + t) for t in ['C03_dispatch_has_entry', 'C03_never_early', 'C03_dispatch_is_popped_min', 'C03_own_trigger_once', 'C03_dispatch_answers_own_trigger', 'C03_at_most_once']], "C04": COMPOSE[3:8] + SCHEDFACTS + [("QuartzModel.Theorems.C04", "Sched." + t) for t in ['C04_accounted', 'C04_suspended_untouched', 'C04_misfire_iff_late', 'C04_misfire_only_if_late', 'C04_leaves_registry', 'C04_no_drift', 'C04_no_drift_start', 'C04_run_once', 'C04_hyps_reachable']], "C08": SCHEDFACTS + [("QuartzModel.Theorems.C12", "Pool.C12_facts")] + [("QuartzModel.Theorems.C08", "Sched." + t) for t in ['C08_pause_effect', 'C08_resume_from_now', 'C08_paused_no_consumption', 'C08_delete_effect', 'C08_clear_effect', 'C08_paused_no_consumption_reachable', 'C08_delete_effect_reachable', 'C08_clear_effect_reachable']],
+    "C03": COMPOSE[:3] + COMPOSE[8:] + SCHEDFACTS + [("QuartzModel.Theorems.C03", "Sched." + t) for t in ['C03_dispatch_has_entry', 'C03_never_early', 'C03_dispatch_is_popped_min', 'C03_own_trigger_once', 'C03_dispatch_answers_own_trigger', 'C03_at_most_once']], "C04": COMPOSE[3:8] + SCHEDFACTS + [("QuartzModel.Theorems.C04", "Sched." + t) for t in ['C04_accounted', 'C04_suspended_untouched', 'C04_misfire_iff_late', 'C04_misfire_only_if_late', 'C04_leaves_registry', 'C04_no_drift', 'C04_no_drift_start', 'C04_run_once', 'C04_hyps_reachable',
+        'C04_saturates', 'C04_interval_answer', 'C04_saturated_registered', 'C04_saturated_not_due', 'C04_saturated_never_spins',
+        'wrapAdd_neg', 'C04_addNanos_is_satAdd', 'C04_overflow_spins_unrepaired']] +
+           [("QuartzModel.Proofs.SchedLemmas", "Sched." + t) for t in ['satAdd_eq', 'satAdd_sat', 'satAdd_le', 'satAdd_ge', 'no_drift_aux', 'parked_aux']] +
+           # the interval triggers of the source are the model's (regenerated fact: SimpleTrigger / RunOnceTrigger / addNanos statements)
+           [("QuartzModel.Theorems.TriggerFacts", "Sched.trigger_interval_add"), ("QuartzModel.Theorems.TriggerFacts", "Sched.trigger_fire_spec")], "C08": SCHEDFACTS + [("QuartzModel.Theorems.C12", "Pool.C12_facts")] + [("QuartzModel.Theorems.C08", "Sched." + t) for t in ['C08_pause_effect', 'C08_resume_from_now', 'C08_paused_no_consumption', 'C08_delete_effect', 'C08_clear_effect', 'C08_paused_no_consumption_reachable', 'C08_delete_effect_reachable', 'C08_clear_effect_reachable']],
     "C09": [("QuartzModel.Theorems.C09", "Sched." + t) for t in ['C09_schedule_error_unchanged', 'C09_schedule_error_state_unchanged', 'C09_delete_error_unchanged', 'C09_pause_error_unchanged', 'C09_resume_error_unchanged', 'C09_schedule_error_iff', 'C09_delete_error_iff', 'C09_pause_error_iff', 'C09_resume_error_iff', 'C09_keys_unique', 'C09_keys_unique_entry', 'C09_keys_unique_count', 'C09_replace_exact', 'C09_no_replace_rejected']] + [("QuartzModel.Theorems.C09Lin", "Sched." + t) for t in ["C09_lock_facts", "C09_unlocked_are_reads", "C09_schedule_reads_under_lock", "pauseOp_run", "C09_linearizable"]] +
            [("QuartzModel.Concurrency.Lock", "Lock.linearizable")] +
            # the loop's pop / classify / ask-the-trigger / push step is one critical section (one atomic step of the linearizability argument)
